@@ -206,8 +206,10 @@ def same_capacity_sessions(call, r, quick=True):
                 if not common:
                     continue
                 # the stream lengths nearest to the capacity (terminator truncated / complete), and one in the middle
-                picks = sorted(set(common[-6:] + [common[len(common) // 2]]))
-                for L in picks if not quick else picks[-4:]:
+                # and the longest ones that leave room for the complete terminator of both kinds (4 / 3, 5, 7, 9 bits) and a pad codeword
+                roomy = [L for L in common if capbits - L >= 9]
+                picks = sorted(set(common[-6:] + roomy[-6:] + [common[len(common) // 2]]))
+                for L in picks if not quick else sorted(set(common[-2:] + roomy[-3:] + [common[len(common) // 2]])):
                     (m1, n1), (m2, n2) = by_len[L]
                     c1, c2 = content_for_mode(r, m1, n1), content_for_mode(r, m2, n2)
                     a = call('make', c1, version=T.version_name(v1), boost_error=False, **({'error': e1} if e1 != '-' else {}))
